@@ -48,6 +48,35 @@ def container_len(ex, st, v):
     return z3.BitVec('len?' + term_str(t), 64), None
 
 
+def is_str_container(name):
+    sn = strip_generics(name)
+    return bool(re.search(r'<(str|String) as |impl str>::', sn))
+
+
+def char_boundary(ex, st, v, ln):
+    """uninterpreted predicate "byte offset i of this string is a char boundary" (one per container term), with the two facts
+    that hold for every string: offsets 0 and len are boundaries.  Only offsets the code obtained from find/rfind/char_indices
+    /is_char_boundary (modelled below) are known to be boundaries; anything else may fall inside a multi-byte character."""
+    b = slice_of(ex, st, v)
+    if b is not None:
+        # a view into a backing byte array: boundaries are a property of absolute offsets, shared by every sub-view
+        cba = z3.Function('charb?' + str(b.arr), z3.BitVecSort(64), z3.BoolSort())
+        return (lambda i: cba(b.off + i)), [cba(b.off), cba(b.off + b.len)]
+    t = strip_refs(ex.to_term(st, v))
+    # a half of `s.split_at(mid)`: its boundaries are those of s (shifted by mid for the second half)
+    if isinstance(t, tuple) and len(t) >= 3 and t[0] == 'field' and t[2] in (0, 1):
+        for c in reversed(st.calls):
+            if c.ret is not None and c.ret == t[1] and re.search(r'::split_at$', c.name) and len(c.argvals) == 2 and isinstance(c.argvals[1], VInt):
+                src_ln, _ = container_len(ex, st, c.argvals[0])
+                src, facts = char_boundary(ex, st, c.argvals[0], src_ln)
+                mid = c.argvals[1].e
+                if t[2] == 0:
+                    return src, facts + [src(mid), ln == mid]
+                return (lambda i: src(mid + i)), facts + [src(mid), ln == src_ln - mid]
+    cb = z3.Function('charb?' + term_str(t), z3.BitVecSort(64), z3.BoolSort())
+    return cb, [cb(z3.BitVecVal(0, 64)), cb(ln)]
+
+
 def strip_refs(t):
     while isinstance(t, tuple) and t and t[0] in ('ref', 'deref'):
         t = t[1]
@@ -121,6 +150,13 @@ def index_model(ex, st, fr, name, args, dty):
         if b is not None:
             return [(s2, new_slice(ex, s2, b, lo, n), 'ok', '')]
         return ex.uninterp(s2, fr, name, args, dty)
+    if is_str_container(name):
+        cb, facts = char_boundary(ex, st, args[0], ln)
+
+        def cont_cb(s2):
+            s2.pc.extend(facts)
+            return fork(ex, s2, fr, z3.And(cb(lo), cb(lo + n)), 'byte index is not a char boundary: %s' % sn, cont)
+        return fork(ex, st, fr, cond, what, cont_cb)
     return fork(ex, st, fr, cond, what, cont)
 
 
@@ -136,6 +172,13 @@ def split_at_model(ex, st, fr, name, args, dty):
         if b is not None:
             return [(s2, VAgg('tuple', None, [new_slice(ex, s2, b, z3.BitVecVal(0, 64), mid.e), new_slice(ex, s2, b, mid.e, ln - mid.e)]), 'ok', '')]
         return ex.uninterp(s2, fr, name, args, dty)
+    if is_str_container(name):
+        cb, facts = char_boundary(ex, st, args[0], ln)
+
+        def cont_cb(s2):
+            s2.pc.extend(facts)
+            return fork(ex, s2, fr, cb(mid.e), 'split_at: mid is not a char boundary (%s)' % strip_generics(name), cont)
+        return fork(ex, st, fr, cond, 'split_at: mid > len (%s)' % strip_generics(name), cont_cb)
     return fork(ex, st, fr, cond, 'split_at: mid > len (%s)' % strip_generics(name), cont)
 
 
@@ -200,4 +243,21 @@ def str_find_model(ex, st, fr, name, args, dty):
         if kind == 'ok' and isinstance(v, VSym):
             i = ex.sym_int(('field', v.term, 0, 'Some'), 64).e
             s2.pc.append(z3.ULT(i, ln))
+            # a match starts at a char boundary; after a single-byte (ASCII) needle the next offset is one too
+            cb, facts = char_boundary(ex, st, args[0], ln)
+            s2.pc.extend(facts)
+            s2.pc.append(cb(i))
+            nd = args[1] if len(args) > 1 else None
+            if isinstance(nd, VInt) and z3.is_bv_value(z3.simplify(nd.e)) and z3.simplify(nd.e).as_long() < 0x80:
+                s2.pc.append(cb(i + 1))
     return out
+
+
+@model(r'core::str::<impl str>::is_char_boundary$|<impl str>::is_char_boundary$')
+def is_char_boundary_model(ex, st, fr, name, args, dty):
+    ln, _ = container_len(ex, st, args[0])
+    if not isinstance(args[1], VInt):
+        return None
+    cb, facts = char_boundary(ex, st, args[0], ln)
+    st.pc.extend(facts)
+    return [(st, VBool(z3.And(z3.ULE(args[1].e, ln), cb(args[1].e))), 'ok', '')]
